@@ -18,10 +18,14 @@ NUMS = [("i", "1"), ("i", "15"), ("i", "-3"), ("f", "1.5"), ("f", "-0.984016"), 
 NAMES = ["Oxidation", "Phospho", "Acetyl", "Carbamidomethyl", "Methyl", "Deamidated", "Amidated", "Dehydrated",
          "U:Oxidation", "UNIMOD:35", "U:35", "Unimod:21", "MOD:00046", "M:O-phospho-L-serine", "O-phospho-L-serine",
          "XLMOD:01000", "X:DSS", "Label:13C(6)", "Label:13C(6)15N(2)", "U:Label:13C(6)15N(4)", "Hex", "HexNAc",
-         "Cation:Na", "Oxidation|Hydroxylation", "R:Methionine sulfone", "RESID:AA0581", "G:G59626AS", "GNO:G59626AS"]
+         "Cation:Na", "Oxidation|Hydroxylation", "R:Methionine sulfone", "RESID:AA0581", "G:G59626AS", "GNO:G59626AS",
+         # vocabulary names with characters that mean something elsewhere in the notation: > , [ ] ( ) ' / + . &
+         "Met->Hse", "U:Ala->Ser", "(2S,3R)-3-hydroxyasparagine", "Xlink:DTSSP[88]", "1'-phospho-L-histidine",
+         "DiART6plex116/119", "Myristoyl+Delta:H(-4)", "ICAT-G:2H(8)"]
 FORMULAS = ["Formula:C2H4", "Formula:[13C2]H4", "Formula:C-1H2O", "Formula:[13C2][15N1]H6", "Formula:HPO3",
             "Formula:C12H20O2", "Formula:[2H3]C", "Formula:C6H10O5"]
-GLYCANS = ["Glycan:Hex", "Glycan:HexNAc2Hex", "Glycan:HexNAc2Hex3Fuc", "Glycan:Hex5HexNAc4NeuAc2", "Glycan:dHex"]
+GLYCANS = ["Glycan:Hex", "Glycan:HexNAc2Hex", "Glycan:HexNAc2Hex3Fuc", "Glycan:Hex5HexNAc4NeuAc2", "Glycan:dHex",
+           "Glycan:HexHex", "Glycan:Hex2HexNAcHex"]      # a name may come twice
 MISC = ["Obs:+17.05685", "Obs:-1.5", "INFO:anything here", "INFO:x", "#g1", "Oxidation#g1", "Oxidation#g1(0.5)",
         "#XL1", "Oxidation|INFO:x", "Phospho|Obs:+79.966|INFO:y", "+15.995#g2", "XLMOD:02001#XL1", "Phospho#s1(0.90)",
         "Formula:C2H4|INFO:f", "Glycan:Hex|INFO:g"]
@@ -30,7 +34,8 @@ STATICS_MASSY = ["[Carbamidomethyl]@C", "[Oxidation]@M", "[+15.995]@M", "[Formul
                  "[Amidated]@C-Term", "[Phospho]@S,T,Y", "[1]@P", "[Methyl][Oxidation]@E", "[3.5]@N-Term,K",
                  "[Oxidation]^2@M", "[U:35]@W", "[Glycan:Hex]@N", "[-18.010565]@C-Term,D"]
 STATICS = ["[Carbamidomethyl]@C", "[Oxidation]@M", "[+15.995]@M", "[Formula:C2H4]@K,R", "[Acetyl]@N-Term",
-           "[Amidated]@C-Term", "[Phospho]@S,T,Y", "[1]@P", "[Methyl][Oxidation]@E", "[3.5]@N-Term,K", "[Oxidation]^2@M"]
+           "[Amidated]@C-Term", "[Phospho]@S,T,Y", "[1]@P", "[Methyl][Oxidation]@E", "[3.5]@N-Term,K", "[Oxidation]^2@M",
+           "[Met->Hse]@M", "[(2S,3R)-3-hydroxyasparagine]@N,D", "[Xlink:DTSSP[88]]@K", "[Formula:[13C2]H4]@R"]
 ADDUCTS = ["+H+", "+2Na+,+H+", "+Na+", "+K+", "+2H+", "-H+", "+Ca2+", "+Mg2+", "+Cl-", "+Li+", "+Na+,+K+", "+3H+",
            "+2Na+,-H+", "+e-"]
 
@@ -40,7 +45,7 @@ MASSY = (["Oxidation", "Phospho", "Acetyl", "Carbamidomethyl", "Methyl", "Deamid
           "M:O-phospho-L-serine", "O-phospho-L-serine", "Label:13C(6)", "Label:13C(6)15N(2)", "U:+15.995", "M:-18.01",
           "Obs:+17.05685", "Obs:-1.5", "Oxidation#g1", "#g1", "Oxidation#g1(0.5)", "Oxidation|INFO:x",
           "Phospho|Obs:+79.966|INFO:y", "+15.995#g2", "Formula:C2H4|INFO:f", "Glycan:Hex|INFO:g", "Phospho#s1(0.90)",
-          "INFO:x|Oxidation"] + FORMULAS + GLYCANS)
+          "INFO:x|Oxidation", "21#g1", "35#g2(0.5)"] + FORMULAS + GLYCANS)
 
 
 def modval(rnd: random.Random, kinds="all") -> str:
